@@ -34,6 +34,13 @@ ASSUMPTIONS = [
     "charset, FDSelect and kept subroutines of CFF outputs are implementation choices: only interpreted outlines are compared",
 ]
 
+# families of component records that retained composites of REPOSITORY fonts must show in every recording
+# (selection by property: fonts and composites that carry them are preferred, see record() / featured_composites)
+RECORDED_COMPOSITE_FAMILIES = tuple("composite_retained:" + f for f in (
+    "tr:none", "tr:scale", "tr:xy-scale", "tr:two-by-two", "tr:two-by-two-asymmetric", "tr:negative-value",
+    "args:bytes", "args:words", "args:negative-offset", "instructions", "flag:use-my-metrics",
+    "flag:round-xy-to-grid", "flag:unscaled-component-offset"))
+
 CONFIGS = {
     "quick": [("MC_Subset_quick.cfg", 25)],
     "thorough": [("MC_Subset_thorough_a.cfg", 60), ("MC_Subset_thorough_b.cfg", 60)],
@@ -60,8 +67,41 @@ def _case_features(c):
     targets = [t[0] for g in order for t in comp[g]]
     if len(targets) != len(set(targets)):
         f.append("shared_or_repeated_component")
-    if any(e[0] == [[-1, 0, 0]] for e in exp["head"] + exp["tail"]):
+    if any(e[0] == [[-1, []]] for e in exp["head"] + exp["tail"]):
         f.append("cyclic_glyph_retained")
+    # families of component records among the retained composites (t = [gid, flags, words, a1, a2, transform])
+    for g in order:
+        if comp[g] and c["instr"][g]:
+            f.append("composite_with_instructions")
+        for t in comp[g]:
+            fl, words, a1, a2, tr = t[1], t[2], t[3], t[4], t[5]
+            f.append("comp_tr_" + {0: "none", 1: "scale", 2: "xy_scale", 4: "two_by_two"}[len(tr)])
+            if len(tr) == 4 and tr[1] != tr[2]:
+                f.append("comp_tr_two_by_two_asymmetric")
+            if any(v < 0 for v in tr):
+                f.append("comp_tr_negative_value")
+            if any(v in (32767, -32768) for v in tr):
+                f.append("comp_tr_extreme_value")
+            f.append("comp_args_words" if words else "comp_args_bytes")
+            if fl & 2:
+                if a1 < 0 or a2 < 0:
+                    f.append("comp_args_negative_offset")
+                if not words and (a1 in (-128, 127)):
+                    f.append("comp_args_int8_boundary")
+                if words and (a1 in (-129, 128)):
+                    f.append("comp_args_just_beyond_int8")
+                if words and -128 <= a1 <= 127 and -128 <= a2 <= 127:
+                    f.append("comp_args_words_where_bytes_would_do")
+                if words and (a1 in (32767, -32768) or a2 in (32767, -32768)):
+                    f.append("comp_args_int16_extreme")
+            else:
+                f.append("comp_args_point_numbers")
+            for bit, name in ((4, "round_xy_to_grid"), (0x200, "use_my_metrics"), (0x400, "overlap_compound"),
+                              (0x800, "scaled_component_offset"), (0x1000, "unscaled_component_offset")):
+                if fl & bit:
+                    f.append("comp_flag_" + name)
+            if tr and any(u[5] for u in comp[t[0]]):
+                f.append("transform_under_transform")
     if any(g >= c["nhm"] for g in order):
         f.append("old_id_past_numberOfHMetrics")
     if c["nhm"] == n:
@@ -82,7 +122,15 @@ def _case_features(c):
 NEEDED_FEATURES = ["closure_pulls_in_components", "closure_pulls_in_several", "nested_composite", "self_reference",
                    "shared_or_repeated_component", "cyclic_glyph_retained", "old_id_past_numberOfHMetrics",
                    "all_long_metrics", "empty_glyph_retained", "empty_glyph_as_component", "notdef_is_composite",
-                   "order_not_ascending", "component_id_changes"]
+                   "order_not_ascending", "component_id_changes",
+                   # families of component records a retained composite must show (C07-m1 class: whatever the
+                   # subsetter re-serialises of a composite)
+                   "composite_with_instructions", "comp_tr_none", "comp_tr_scale", "comp_tr_xy_scale", "comp_tr_two_by_two",
+                   "comp_tr_two_by_two_asymmetric", "comp_tr_negative_value", "comp_tr_extreme_value", "comp_args_words",
+                   "comp_args_bytes", "comp_args_negative_offset", "comp_args_int8_boundary", "comp_args_just_beyond_int8",
+                   "comp_args_words_where_bytes_would_do", "comp_args_int16_extreme", "comp_args_point_numbers",
+                   "comp_flag_round_xy_to_grid", "comp_flag_use_my_metrics", "comp_flag_overlap_compound",
+                   "comp_flag_scaled_component_offset", "comp_flag_unscaled_component_offset", "transform_under_transform"]
 
 
 def _container(case):
@@ -156,13 +204,15 @@ def _selfcheck_replay(ctx, binp, cases_path, families=3):
     with open(cases_path) as f:
         for ln in f:
             c = json.loads(ln)
-            if c["exp"]["n"] > len(c["req"]) and c["nhm"] < c["n"] and all(g["comp"] != c["comp"] for g in goods):
+            # the first requested glyph after .notdef... some requested glyph is a composite with a transform and instructions
+            if c["exp"]["n"] > len(c["req"]) and c["nhm"] < c["n"] and all(g["comp"] != c["comp"] for g in goods) \
+                    and any(e[3][0] and e[3][1] and any(p[3] for p in e[3][0]) for e in c["exp"]["head"]):
                 goods.append(c)
                 if len(goods) >= families:
                     break
     if not goods:
         raise vlib.ToolError("self-check: no case with pulled-in components")
-    kinds = ("lsb", "advance", "outline", "count", "tail")
+    kinds = ("lsb", "advance", "outline", "count", "tail", "transform", "argument", "flags", "instructions", "path")
     items = []
     for good in goods:
         items.append(good)
@@ -173,11 +223,34 @@ def _selfcheck_replay(ctx, binp, cases_path, families=3):
             elif what == "advance":
                 c["exp"]["head"][0][1] += 1
             elif what == "outline":
-                c["exp"]["head"][0][0] = [[1, 5, 5]]
+                c["exp"]["head"][0][0] = [[1, [[2, 5, 5, []]]]]
             elif what == "count":
                 c["exp"]["n"] += 1
+            elif what == "tail":
+                c["exp"]["tail"][0][0] = [[0, [[2, 1, 1, []]]]]
             else:
-                c["exp"]["tail"][0][0] = [[0, 1, 1]]
+                # a requested composite with a transform and instructions: one field of one component record
+                e = next(e for e in c["exp"]["head"] if e[3][0] and e[3][1] and any(p[3] for p in e[3][0]))
+                pl = next(p for p in e[3][0] if p[3])
+                if what == "transform":
+                    if len(pl[3]) == 4:
+                        pl[3][1], pl[3][2] = pl[3][2], pl[3][1] + (1 if pl[3][1] == pl[3][2] else 0)   # transposed
+                    else:
+                        pl[3][-1] += 1
+                elif what == "argument":
+                    pl[2] += 1
+                elif what == "flags":
+                    pl[0] ^= 0x200
+                elif what == "instructions":
+                    e[3][1] = e[3][1][:-1]
+                else:
+                    # the flattened outline only: the same placement one level down the path
+                    e = next((e for e in c["exp"]["head"] + c["exp"]["tail"] if e[0] and e[0][0][1] and e[0][0][1][-1][3]), None)
+                    if e is None:
+                        e = next(e for e in c["exp"]["head"] + c["exp"]["tail"] if e[0] and e[0][0][1])
+                        e[0][0][1][-1][1] += 1
+                    else:
+                        e[0][0][1][-1][3][0] += 1
             items.append(c)
     p = ctx.path("selfcheck_cases.ndjson")
     vlib.write_ndjson(p, items)
@@ -330,7 +403,8 @@ def run(ctx):
     ctx.note("record: %d events, tally %s" % (rec.get("events", 0), json.dumps(tally)))
     for k in ("fonts:glyf", "fonts:cff", "fonts:cid", "fonts:cff2", "fonts:cff_with_subroutines", "fonts:cid_with_subroutines",
               "rewrapped_woff", "rewrapped_woff2", "type1_converted_to_cid", "pulled_in_components",
-              "glyphs_old_id_past_numberOfHMetrics", "ok:glyf:prince", "ok:cff:prince", "fonts:syn-cff2", "fonts:syn-cid"):
+              "glyphs_old_id_past_numberOfHMetrics", "ok:glyf:prince", "ok:cff:prince", "fonts:syn-cff2", "fonts:syn-cid") \
+            + RECORDED_COMPOSITE_FAMILIES:
         if tally.get(k, 0) == 0:
             raise vlib.ToolError("recording is vacuous for %s" % k)
 
@@ -367,7 +441,9 @@ def run(ctx):
     self_verdict = _eval_selfcheck(fams, mism, bool(real) or bool(gen_mism))
     ctx.note("binding self-check: %s" % json.dumps(self_verdict))
     for k in ("subsets_ok", "with_pulled_in", "order_as_model", "outlines_nonempty", "metrics_compared", "records_compared",
-              "composite_records", "kind_glyf", "kind_cff", "kind_cid", "kind_cff2"):
+              "composite_records", "kind_glyf", "kind_cff", "kind_cid", "kind_cff2",
+              "comp_scale", "comp_xy_scale", "comp_two_by_two", "comp_two_by_two_asymmetric", "comp_negative_transform",
+              "comp_point_args", "composite_with_instructions", "transformed_outlines_compared"):
         if stats.get(k, 0) == 0:
             raise vlib.ToolError("judge statistics are vacuous for %s" % k)
 
